@@ -155,3 +155,25 @@ _ADDED = {
 for _pid, _txt in _ADDED.items():
     if _pid in CHECKS:
         CHECKS[_pid]['level_claimed']['text'] += _txt
+
+# ---- round 6 (DESIGN.md 9.7 "Round-6 additions")
+_LEM = (" Lemma rules re-decided here (the solve pipeline this property's corollary clauses rest on; DESIGN.md 9.7): the no-stale-state protocol "
+        "(C09 P1..P5, P9, P8u: every edit statement of the alphabet raises a dirty flag, the solve entry points refresh cache and ghosts)")
+_ADDED6 = {
+    'C01': " R5p: the ghost layer wraps to the opposite side under every flag configuration that makes an axis periodic." + _LEM + " and the solve rules C04 S1..S9.",
+    'C02': " A metric factor taken at a point other than the expansion point is expanded about that point (a definite mismatch instead of an analysis error)." + _LEM + ", C04 S1..S9 and the boundary rows C03 B1/B2/B6/B7/B9.",
+    'C03': " Quick tier covers the single-flag periodic configurations of every axis." + _LEM + " and C04 S1..S9.",
+    'C04': _LEM + ".",
+    'C06': _LEM + ", C04 S1..S9 and the boundary rows C03 B1/B2/B6/B7/B9.",
+    'C07': _LEM + " and C04 S1..S9.",
+    'C08': _LEM + " and C04 S1..S9.",
+    'C09': " P1 interprets the edit alphabet as user-level statements (plain / slice / augmented / element stores, array-valued right-hand sides in both accepted shapes, aliases, utility methods) so that python's getter / in-place operator / setter protocol applies.",
+    'C12': _LEM + " and C04 S1..S9.",
+    'C13': " F8 analyses _fsign after inlining local assignments (np.where / np.isclose / conditional expressions).",
+    'C15': " Z5 counts a module-level container as hidden state only when it is mutated or escapes; module-level objects persist between interpreted calls.",
+    'C16': " L6 probes array-like non-arrays (numpy scalars, sparse matrices, memoryviews) in every coefficient position; L8 falls back to interpretation per grid class for dispatchers that are not if/elif chains.",
+    'C17': " H4 reports one construct per absolute threshold (literal, defaulted parameter, or the default atol of np.isclose / np.allclose), so a new threshold is not covered by the listed finding." + _LEM + " and C04 S1..S9.",
+}
+for _pid, _txt in _ADDED6.items():
+    if _pid in CHECKS:
+        CHECKS[_pid]['level_claimed']['text'] += _txt
